@@ -698,6 +698,11 @@ impl BitSink for CountSink {
         self.len += 8 * std::mem::size_of::<T>();
         Ok(())
     }
+    // (the default method loops n/64 times; it is covered by c11_user_sink_defaults)
+    fn write_zeros(&mut self, n: usize) -> Result<(), Self::Error> {
+        self.len += n;
+        Ok(())
+    }
 }
 
 /// Minimal user sink: implements only the four required methods, records the bits in a
